@@ -1,5 +1,6 @@
 (* C20  Half-rate decoding halves the sample count and keeps positions truthful. *)
-From VV Require Import Blocking Blocking_lemmas VFile VFile_lemmas VFileDemo.
+From VV Require Import Blocking Blocking_lemmas VFile VFile_lemmas Term_lemmas VFileDemo.
+From Coq Require Import ZArith Lia.
 Local Open Scope Z_scope.
 
 (* every link of N samples (any well-formed final sequence of blocks: all block
@@ -34,6 +35,14 @@ Theorem C20_totals_unchanged :
   forall s flag, pcm_total (snd (halfrate s flag)) = pcm_total s.
 Proof. exact halfrate_total. Qed.
 Print Assumptions C20_totals_unchanged.
+
+(* any page table, any handle state, half rate: a sample seek that reports success lands less than one output
+   sample (two positions) below the target - at worst on the position just below an even target when the
+   link's positions sit on the odd grid; and the loops it runs terminate (C03_pcm_seek_terminates) *)
+Theorem C20_half_rate_seek_within_one_sample :
+  forall s pos, v_hs s = 1 -> fst (pcm_seek s pos) = 0 -> pos - 2 < v_pcm (snd (pcm_seek s pos)).
+Proof. intros s pos Hh H. pose proof (pcm_seek_not_short s pos ltac:(lia) H) as B. rewrite Hh in B. exact B. Qed.
+Print Assumptions C20_half_rate_seek_within_one_sample.
 
 Example C20_demo_refused : fst (halfrate demo true) = OV_EINVAL_.
 Proof. vm_compute. reflexivity. Qed.
